@@ -127,6 +127,18 @@ func (e *emitEngine) render(crs []callRec) []emitEvent {
 				alt.conds = simplifyConds(alt.conds)
 				ev.loop = append(ev.loop, alt)
 			}
+			// alternatives doing the same under complementary tests are one alternative
+			var items []condBody
+			for i, a := range ev.loop {
+				items = append(items, condBody{conds: a.conds, body: eventsString(a.events) + " " + a.exit, ref: i})
+			}
+			var merged []emitAlt
+			for _, it := range mergeComplementary(items) {
+				a := ev.loop[it.ref]
+				a.conds = it.conds
+				merged = append(merged, a)
+			}
+			ev.loop = merged
 			sort.Slice(ev.loop, func(i, j int) bool { return altString(ev.loop[i]) < altString(ev.loop[j]) })
 			out = append(out, ev)
 			continue
@@ -308,6 +320,20 @@ func (e *emitEngine) arms(method string, param string) (map[string][]emitPath, e
 		}
 		p.conds = rest
 		out[arm] = append(out[arm], p)
+	}
+	// paths emitting the same under complementary tests are one path
+	for arm, ps := range out {
+		var items []condBody
+		for i, p := range ps {
+			items = append(items, condBody{conds: p.conds, body: relabel(eventsString(p.events)) + "\x00" + strings.Join(p.und, ";"), ref: i})
+		}
+		var merged []emitPath
+		for _, it := range mergeComplementary(items) {
+			p := ps[it.ref]
+			p.conds = it.conds
+			merged = append(merged, p)
+		}
+		out[arm] = merged
 	}
 	return out, nil
 }
